@@ -193,7 +193,10 @@ def _handle_generic_types(
     if incoming_origin is Annotated:
         return _compare_single_annotated_type(incoming_type, required_type, memo)
     if required_origin is Annotated:
-        return _compare_single_annotated_type(required_type, incoming_type, memo)
+        # `Annotated[T, ...]` requires a `T`: compare the incoming type with `T`
+        # (and not `T` with the incoming type).
+        required_primary, *_ = get_args(required_type)
+        return is_type_compatible(incoming_type, required_primary, memo)
 
     # Handle generic types
     if incoming_origin and required_origin:
